@@ -17,7 +17,7 @@ class C05(PropBase):
     lean_modules = ["SqModel.Props.C05"]
     extractors = ["ma_code"]
     rule = ("all 8192 AC13 codes x {DF4, DF20} and all 4096 AC12 codes x TC 9..18 (quick: 3 type codes), each in a random "
-            "payload/address, applied to an existing row and as creating frame, x {-U, -R}; row.altitude against the Lean "
+            "payload/address, applied to existing rows with 14 different pasts (created by DF11 / surface / position / identification / velocity / DF4 / DF5 / DF20 ...) and as creating frame, x {-U, -R}; row.altitude against the Lean "
             "altitude-code specification printed for the same frame. Non-trivial = the specification prescribes an altitude; "
             "distinct by (format, code, options, first/later).")
     assumptions = ["altSpec13/altSpec12 (Spec/Altitude.lean) is the reading of the Annex 10 altitude code incl. Gillham",
@@ -39,10 +39,14 @@ class C05(PropBase):
                 frames.append(F.df17(rng.randrange(8), addr, F.me_airpos(tc, rng.randrange(4), rng.randrange(2), c, rng.randrange(2), rng.randrange(2), la, lo)))
         if len(set(addrs)) != len(addrs):
             raise core.Broken("generator produced duplicate addresses", "")
-        ops = ["reset", gen.cfg_op(use_update=u, relaxed=r), "case 0"]
+        ops = ["reset", gen.cfg_op(use_update=u, relaxed=r), "case p"]
+        priors = {}
         if not first:
-            ops += gen.seg([F.df11(rng.randrange(8), a, 0) for a in addrs])
-        ops += gen.seg(frames) + ["dump", "case 1"] + ["q frame " + f for f in frames]
+            # rows with different pasts (a DF11, a surface squitter that blanked the altitude, an earlier altitude, ...)
+            for i, a in enumerate(addrs):
+                priors[a] = gen.prior_frames(rng, a, gen.PRIORS[(i + i // len(gen.PRIORS)) % len(gen.PRIORS)])
+            ops += gen.seg([f for a in addrs for f in priors[a]])
+        ops += ["dump", "case 0"] + gen.seg(frames) + ["dump", "case 1"] + ["q frame " + f for f in frames]
         impl, _, model = run.execute(ops, model=driver_ok)
         rep.evaluations += len(frames)
         rep.traces += 1
@@ -50,6 +54,7 @@ class C05(PropBase):
         self.corr(rep, impl, model, ctx)
         ci, cm = core.split_cases(impl), core.split_cases(model)
         rows = gen.parse_dump(ci.get("0", []))
+        before = gen.parse_dump(ci.get("p", []))
         specs = [core.kvs(l) for l in cm.get("1", []) if l.startswith("spec ")]
         if driver_ok and len(specs) != len(frames):
             raise core.Broken("driver returned %d spec lines for %d frames" % (len(specs), len(frames)), "")
@@ -65,15 +70,18 @@ class C05(PropBase):
                 rep.nontriv((kind, codes[i], u, r, first))
             if got == want:
                 continue
+            if want == "-" and not first and got == before.get(a, {}).get("alt"):
+                continue      # a code that carries no altitude may blank the altitude or leave it as it was (C11)
             if a in rows and got == "-" and first and kind == "df20":
                 continue      # the creating DF20 frame may contribute the address only
             w13 = (int(f, 16) >> (len(f) * 4 - 32)) & 0x1FFF
-            if specs[i].get("q") == "0" and got == legacy.get(w13):
+            leg = legacy.get(w13)
+            if specs[i].get("q") == "0" and (got == leg or (leg == "-" and not first and got == before.get(a, {}).get("alt"))):
                 fid = "gillham-df4-df20" if kind in ("df4", "df20") else "gillham-tc9-18"
                 known[fid] = known.get(fid, 0) + 1
                 continue
             self.fail(rep, f"{kind} altitude code {codes[i]:#x}: row shows {got}, the altitude code says {want} ({ctx})",
-                      {"ops": ["reset", gen.cfg_op(use_update=u, relaxed=r)] + ([] if first else gen.seg([F.df11(5, a, 0)]))
+                      {"ops": ["reset", gen.cfg_op(use_update=u, relaxed=r)] + ([] if first else gen.seg(priors[a]))
                        + gen.seg([f]) + ["dump", "q frame " + f], "frame": f, "code": codes[i], "spec_alt": want, "impl_alt": got,
                        "context": ctx, "address": a})
             return False
